@@ -122,7 +122,8 @@ def report_mismatches(ctx, mm, source):
             msg = ("%s: %d step(s): %s: the configuration demands %s%s, the server %s; configuration file:\n%s" % (
                 source, len(ms), describe_step(m) if "rq" in m else "?", exp,
                 (" then the scripted exchange over the pump (first difference: %s)" % json.dumps(m.get("pump_diff"))) if what == "pump" else "",
-                ("answered " + got) if what != "the connection was closed before this step" else "had closed the connection before",
+                ("answered " + got) if what != "the connection was closed before this step"
+                else "did not get that far (it had closed the connection, or had stopped answering altogether)",
                 m.get("conf", "")))
         else:
             msg = "%s: %s; configuration file:\n%s" % (source, what, m.get("conf", ""))
